@@ -21,7 +21,7 @@ func init() {
 		Run:       runC10,
 		Technique: "static analysis: printer/parser table agreement (constant format strings vs regexp literals and the role each capture group feeds), save/load field symmetry, comparison normal form of the listing guards",
 		Explanation: "(R1) for store snapshots, cached outputs and index files, the file-name printer (constant Sprintf format, role of each argument traced to Range.StartBlock / ExclusiveEndBlock) and the parser (regexp literal, role each capture group is converted into) agree position by position, use equal zero-padded widths, and the extension decides the full/partial kind consistently with the constructors; " +
-			"(R2) Save writes exactly the StoreData fields Load restores, from/to the store's own fields, with the store's marshaller (shared with C02.R6); " +
+			"(R2) Save writes exactly the StoreData fields Load restores, from/to the store's own fields, with the store's marshaller (shared with C02.R6), and the bytes are uploaded with a reader created per retry attempt (a shared reader would upload a truncated snapshot after a failed attempt); " +
 			"(R3) the snapshot listing keeps every parsed file except trace-id leftovers, stops only at a file whose start block is >= the limit, returns nothing for limit 0, and the caller classifies files by their Partial flag.",
 		NotCovered:  "Byte-level round trip of arbitrary keys and values (delegated to generated protobuf code; the hand-written part is C18), behaviour of the object store's Walk ordering.",
 		Assumptions: []string{"dstore.Walk lists file names in lexicographic order", "the regexp literals are evaluated by the checker with Go's regexp package (constant evaluation, no repository code is run)"},
@@ -393,6 +393,7 @@ func runC10(p *core.Prog, r *core.Report) {
 	})
 
 	r.Guard("C10.R2", "save-load", "snapshot field symmetry", func() { checkSaveLoadSymmetry(p, r, "C10.R2") })
+	r.Guard("C10.R2", "upload", "fresh reader per upload attempt", func() { checkFreshReaderPerAttempt(p, r, "C10.R2") })
 
 	r.Guard("C10.R3", "ListSnapshotFiles", "listing guards", func() {
 		fn := p.Func(pkgStore, "Config.ListSnapshotFiles")
